@@ -102,6 +102,7 @@ type pathState struct {
 	notes    []string
 	nAsserts int
 	noIfConv bool
+	stubTaxHash bool
 }
 
 const (
